@@ -95,6 +95,9 @@ Proof.
   - destruct (Nat.eq_dec c x) as [->|N].
     + rewrite upd_same. eapply D_deliver; try reflexivity; eassumption.
     + rewrite upd_other by auto. now apply D_same.
+  - now apply D_same.
+  - apply D_same. apply dat_upd_pc.
+  - apply D_same. match goal with |- dat (upd ?f ?k ?v x) = _ => destruct (upd_cases f k v x) as [[-> ->]|[_ ->]] end; reflexivity.
 Qed.
 
 Lemma In_flow m st : In m (flow st) <-> In m (c_out st) \/ c_hand st = Some m \/ In m (c_q st).
